@@ -520,6 +520,10 @@ newBTreeItems(char kind,
 {
     BTreeItems *self;
 
+#ifdef BTREES_VERIF
+    if (verif_alloc_should_fail())
+        return PyErr_NoMemory();
+#endif
     UNLESS (self = PyObject_NEW(BTreeItems, &BTreeItemsType))
         return NULL;
     self->kind=kind;
